@@ -7,6 +7,7 @@ import (
 	"os"
 	"path/filepath"
 	"strings"
+	"syscall"
 	"time"
 
 	"verif/vfs"
@@ -76,13 +77,15 @@ var (
 	UserHomeDir   = os.UserHomeDir
 	UserCacheDir  = os.UserCacheDir
 	UserConfigDir = os.UserConfigDir
-	Exit          = os.Exit
 	Expand        = os.Expand
 	ExpandEnv     = os.ExpandEnv
 	SameFile      = os.SameFile
 	Executable    = os.Executable
 	FindProcess   = os.FindProcess
 )
+
+// Exit ends the (simulated) process.
+func Exit(code int) { vfs.Exit(code, "os.Exit") }
 
 // File wraps *os.File.
 type File struct {
@@ -210,6 +213,10 @@ func one(op, a, b string) {
 }
 
 func Rename(oldpath, newpath string) error {
+	if vfs.XDev && filepath.Dir(filepath.Clean(oldpath)) != filepath.Dir(filepath.Clean(newpath)) {
+		vfs.Note("rename-exdev", oldpath)
+		return &os.LinkError{Op: "rename", Old: oldpath, New: newpath, Err: syscall.EXDEV}
+	}
 	one("rename", oldpath, newpath)
 	return os.Rename(oldpath, newpath)
 }
